@@ -32,6 +32,8 @@ type WorkerConfig struct {
 	LogHashes    bool     `json:"log_hashes"`    // emit per-run log hashes (determinism self-test)
 	Profiles     []string `json:"profiles"`      // restrict to these profiles
 	ProfilesFrom string   `json:"profiles_from"` // use the workloads of another property (cross-checks)
+	RaceLog      string   `json:"race_log"`      // GORACE log_path prefix: race reports are attributed per run
+	Calibrate    bool     `json:"calibrate"`     // run one calibration plan and report whether the detector saw the probe
 }
 
 // ViolationReport is one violation as reported to the driver.
@@ -66,6 +68,8 @@ type WorkerOutput struct {
 	Replayed   *ReplayOutcome    `json:"replayed,omitempty"`
 	Rechecked  int               `json:"rechecked"`
 	Survey     map[string][2]any `json:"survey,omitempty"` // full signature -> (count, first message)
+	CalibHit   bool              `json:"calibration_hit"`
+	RaceSeen   int               `json:"race_reports_seen"`
 }
 
 // ReplayFile is the on-disk format of a violation (DESIGN appendix B).
@@ -80,6 +84,7 @@ type ReplayFile struct {
 	VerifSeed uint64   `json:"verif_seed"`
 	RunSeed   uint64   `json:"run_seed"`
 	Plan      *Plan    `json:"plan"`
+	Race      bool     `json:"race,omitempty"` // needs the -race build; detection may need several fresh processes
 	LogSHA256 string   `json:"event_log_sha256"`
 	Log       []string `json:"event_log"`
 }
@@ -127,6 +132,73 @@ func sortedKeys(m map[string]int) []string {
 	return ks
 }
 
+// raceWatcher reads what the race detector appended to its log file since the
+// last call.
+type raceWatcher struct {
+	path string
+	off  int64
+}
+
+func (rw *raceWatcher) fresh() string {
+	if rw == nil || rw.path == "" {
+		return ""
+	}
+	b, err := realos.ReadFile(rw.path)
+	if err != nil || int64(len(b)) <= rw.off {
+		return ""
+	}
+	s := string(b[rw.off:])
+	rw.off = int64(len(b))
+	return s
+}
+
+// classifyRaces splits race detector output into reports and says, per
+// report, whether a frame of the library (not of the harness) is involved.
+func classifyRaces(text string) (library []string, calibration int, harness []string) {
+	for _, rep := range strings.Split(text, "==================") {
+		if !strings.Contains(rep, "DATA RACE") {
+			continue
+		}
+		lib := false
+		for _, line := range strings.Split(rep, "\n") {
+			l := strings.TrimSpace(line)
+			if strings.HasPrefix(l, "github.com/emersion/go-webdav") && !strings.HasPrefix(l, "github.com/emersion/go-webdav/vsim/") {
+				lib = true
+			}
+		}
+		switch {
+		case strings.Contains(rep, "calibrationProbe"):
+			calibration++
+		case lib:
+			library = append(library, rep)
+		default:
+			harness = append(harness, rep)
+		}
+	}
+	return
+}
+
+func raceClass(rep string) string {
+	var fr []string
+	for _, line := range strings.Split(rep, "\n") {
+		l := strings.TrimSpace(line)
+		if strings.HasPrefix(l, "github.com/emersion/go-webdav") && !strings.HasPrefix(l, "github.com/emersion/go-webdav/vsim/") {
+			if i := strings.Index(l, "("); i > 0 {
+				l = l[:i]
+			}
+			l = strings.TrimPrefix(l, "github.com/emersion/go-webdav")
+			dup := false
+			for _, x := range fr {
+				dup = dup || x == l
+			}
+			if !dup && len(fr) < 3 {
+				fr = append(fr, l)
+			}
+		}
+	}
+	return strings.Join(fr, " | ")
+}
+
 // RunWorker is the body of the worker test.
 func RunWorker(t *testing.T, cfg *WorkerConfig) *WorkerOutput {
 	startWall := time.Now()
@@ -135,6 +207,10 @@ func RunWorker(t *testing.T, cfg *WorkerConfig) *WorkerOutput {
 		out.LogHashes = map[string]string{}
 	}
 	opts := Opts{Own: cfg.Property, Base: cfg.Base}
+	var rw *raceWatcher
+	if cfg.RaceLog != "" {
+		rw = &raceWatcher{path: fmt.Sprintf("%s.%d", cfg.RaceLog, realos.Getpid())}
+	}
 	realos.MkdirAll(cfg.Base, 0o755)
 	defer realos.RemoveAll(cfg.Base)
 
@@ -145,6 +221,9 @@ func RunWorker(t *testing.T, cfg *WorkerConfig) *WorkerOutput {
 	}
 
 	profiles := Profiles[cfg.Property]
+	if cfg.Calibrate {
+		profiles = Profiles["C18-calibration"]
+	}
 	if cfg.ProfilesFrom != "" {
 		profiles = Profiles[cfg.ProfilesFrom]
 	}
@@ -181,6 +260,23 @@ func RunWorker(t *testing.T, cfg *WorkerConfig) *WorkerOutput {
 			out.Infra = fmt.Sprintf("run %d seed %#x: %s", i, runSeed, res.Infra)
 			break
 		}
+		raceViolation := false
+		if txt := rw.fresh(); txt != "" {
+			lib, calib, harness := classifyRaces(txt)
+			out.RaceSeen += len(lib) + calib + len(harness)
+			if calib > 0 {
+				out.CalibHit = true
+			}
+			if len(harness) > 0 {
+				out.Infra = fmt.Sprintf("run %d seed %#x: the race detector reports a race without any library frame (a harness bug):\n%s", i, runSeed, clipS(harness[0], 4000))
+				break
+			}
+			if len(lib) > 0 && (cfg.Property == "C18" || cfg.Property == "") {
+				v := Violation{Prop: "C18", Clause: "race", Class: raceClass(lib[0]), Msg: "the race detector reports a data race on library state:\n" + clipS(lib[0], 6000)}
+				res.Violations = append([]Violation{v}, res.Violations...)
+				raceViolation = true
+			}
+		}
 		if cfg.Recheck > 0 && (i/cfg.Workers)%cfg.Recheck == 0 {
 			again := Execute(t, plan.Clone(), opts)
 			out.Rechecked++
@@ -213,7 +309,16 @@ func RunWorker(t *testing.T, cfg *WorkerConfig) *WorkerOutput {
 			continue
 		}
 		// a new violation: minimise, write the replay file, stop this worker
-		min, minRes, execs := Minimise(t, plan, &v, opts, 300, 45*time.Second)
+		var min *Plan
+		var minRes *RunResult
+		execs := 0
+		if raceViolation {
+			// the detector reports a given race once per process: a re-execution
+			// here cannot confirm it, a fresh process (vcheck replay) can
+			min, minRes = plan, res
+		} else {
+			min, minRes, execs = Minimise(t, plan, &v, opts, 300, 45*time.Second)
+		}
 		rep := ViolationReport{Signature: v.Signature(), Message: v.Msg, RunSeed: runSeed, Profile: pr.Name, StepsOrig: len(plan.Steps), Steps: len(min.Steps), Execs: execs}
 		final := &v
 		log := res.Log
@@ -227,7 +332,7 @@ func RunWorker(t *testing.T, cfg *WorkerConfig) *WorkerOutput {
 		}
 		rep.Signature = final.Signature()
 		rep.Message = final.Msg
-		rf := &ReplayFile{Format: 1, Property: final.Prop, Clause: final.Clause, Signature: final.Signature(), Message: final.Msg,
+		rf := &ReplayFile{Race: raceViolation, Format: 1, Property: final.Prop, Clause: final.Clause, Signature: final.Signature(), Message: final.Msg,
 			Engine: "wdsim", Profile: pr.Name, VerifSeed: cfg.Seed, RunSeed: runSeed, Plan: min, LogSHA256: log.Hash(), Log: log.Lines}
 		realos.MkdirAll(cfg.ReplayDir, 0o755)
 		path := fmt.Sprintf("%s/%s-%d-%x.json", cfg.ReplayDir, cfg.Property, cfg.Seed, runSeed)
@@ -297,6 +402,17 @@ func replayFile(t *testing.T, cfg *WorkerConfig, opts Opts, out *WorkerOutput) *
 	res := Execute(t, rf.Plan.Clone(), opts)
 	out.Stats.Merge(res.Stats)
 	ro := &ReplayOutcome{}
+	if rf.Race && cfg.RaceLog != "" {
+		rw := &raceWatcher{path: fmt.Sprintf("%s.%d", cfg.RaceLog, realos.Getpid())}
+		lib, _, _ := classifyRaces(rw.fresh())
+		if len(lib) > 0 {
+			ro.Reproduced = true
+			ro.Signature = "C18/race [" + raceClass(lib[0]) + "]"
+			ro.Message = clipS(lib[0], 4000)
+			ro.SameLog = res.Log.Hash() == rf.LogSHA256
+		}
+		return ro
+	}
 	for _, v := range res.Violations {
 		if v.Prop == rf.Property && v.Clause == rf.Clause {
 			ro.Reproduced = true
